@@ -101,7 +101,15 @@ Theorem C06_joinaccept : forall jn nid da optneg rx2 rx1 rxd,
   Ok (spec_encode L_JoinAccept [jn; id_val nid; id_val da; spec_dlsettings optneg rx2 rx1; rxd]).
 Proof. exact joinaccept_is_spec. Qed.
 Print Assumptions C06_joinaccept.
-(* CFList (both kinds) and the FHDR concatenation are compared with their layouts on every
+(* FHDR: DevAddr | FCtrl | FCnt (16 LSB) | FOpts, with FOptsLen = the number of FOpts bytes that
+   follow, whatever the header's internal (possibly stale) FOptsLen field holds *)
+Theorem C06_fhdr : forall h opts,
+  items_marshal (fopts h) = Ok opts -> (length opts <= 15)%nat ->
+  length (devaddr h) = 4%nat -> Forall (fun b => b < 256) (devaddr h) ->
+  fhdr_marshal h = Ok (spec_fhdr h opts).
+Proof. exact fhdr_is_spec. Qed.
+Print Assumptions C06_fhdr.
+(* CFList (both kinds) is compared with its layout on every
    generated case by the correspondence run (Frame/WireSpec.v frame_spec_bytes); their decode
    direction is part of C01_roundtrip / C08_canonical. *)
 
